@@ -12,7 +12,7 @@ VERIF="$(cd "$(dirname "$0")/.." && pwd)"
 PAT="${1:-S}"
 PROPS="C03 C05 C07 C10 C11 C12 C17 C18 C19"
 [ -z "$(git -C /repo status --porcelain)" ] || { echo "matrix error: /repo has uncommitted changes"; exit 2; }
-trap 'git -C /repo checkout -- . >/dev/null 2>&1' EXIT
+trap 'git -C /repo checkout -- . >/dev/null 2>&1; git -C /repo clean -fdq -- src >/dev/null 2>&1' EXIT
 OUT="$(mktemp /var/tmp/matrix.XXXXXX)"
 run_all() {  # $1 = label
   for p in $PROPS; do
@@ -32,17 +32,21 @@ for d in "$VERIF"/seeded/S* "$VERIF"/tools/premise_audit/selftest; do
     case "$n" in $PAT*) ;; *) echo "$n" | grep -q "$PAT" || continue ;; esac
     git -C /repo apply "$d/patch.diff" || { echo "matrix error: $d/patch.diff does not apply"; exit 2; }
     run_all "$n"
-    git -C /repo checkout -- . >/dev/null 2>&1
+    git -C /repo checkout -- . >/dev/null 2>&1; git -C /repo clean -fdq -- src  # a patch may add files
   elif [ -d "$d" ] && [ "$(basename "$d")" = selftest ]; then
     for p in "$d"/*.diff; do
       n="own-$(basename "$p" .diff)"
       echo "$n" | grep -q "$PAT" || [ "$PAT" = S ] || continue
       git -C /repo apply "$p" || { echo "matrix error: $p does not apply"; exit 2; }
       run_all "$n"
-      git -C /repo checkout -- . >/dev/null 2>&1
+      git -C /repo checkout -- . >/dev/null 2>&1; git -C /repo clean -fdq -- src
     done
   fi
 done
+# the checks rewrite evidence/<id>.json on every run: leave behind the evidence of the UNCHANGED tree
+git -C /repo checkout -- . >/dev/null 2>&1; git -C /repo clean -fdq -- src
+[ -z "$(git -C /repo status --porcelain)" ] || { echo "matrix error: /repo is not clean at the end"; exit 2; }
+for p in $PROPS; do python3 "$VERIF/checks/check.py" "$p" quick >/dev/null 2>&1 || echo "matrix error: $p does not pass on the unchanged tree"; done
 python3 - "$OUT" "$VERIF/seeded/matrix.json" <<'PY'
 import json, sys, collections
 rows = [l.rstrip("\n").split("\t") for l in open(sys.argv[1])]
